@@ -274,6 +274,14 @@ func createCompiledRouteHandler(route *ast.Route, bytecode []byte, wsHub *websoc
 		// Unwrap status-carrying results from guards and `> value :: N`
 		// (see compiler.StatusKey).
 		if body, status, ok := unwrapStatusResult(result); ok {
+			// An error status carries a guard's error body; a success status
+			// carries the route's value, which the declared return type covers
+			// (as on the interpreter path).
+			if status >= 200 && status < 300 {
+				if err := validateCompiledReturn(route, body); err != nil {
+					return writeInternalError(ctx, err)
+				}
+			}
 			return writeEncodedJSON(ctx, status, "application/json", body)
 		}
 
